@@ -20,6 +20,20 @@ use std::marker::PhantomData;
 use std::str::FromStr;
 
 const DEPTH_PRIO_STEP: i64 = 1000;
+const DEPTH_PRIO_STEP_FLATTEN: i64 = 100;
+
+/// Priority offset per nesting level. An operator of an inner level has to win against every
+/// operator of an outer level, whatever the priorities of the operators are.
+fn depth_prio_step<T: Clone>(operators: &[crate::operators::Operator<T>], min_step: i64) -> i64 {
+    let prios = operators
+        .iter()
+        .filter_map(|op| op.bin().ok())
+        .map(|bin_op| bin_op.prio);
+    match (prios.clone().min(), prios.max()) {
+        (Some(lo), Some(hi)) => min_step.max(hi - lo + 1),
+        _ => min_step,
+    }
+}
 pub type ExprIdxVec = SmallVec<[usize; N_NODES_ON_STACK]>;
 
 mod detail {
@@ -41,7 +55,7 @@ mod detail {
         BinOp, ExError, ExResult, FlatEx, MakeOperators, MatchLiteral, Operator,
     };
 
-    use super::{ExprIdxVec, DEPTH_PRIO_STEP};
+    use super::{depth_prio_step, ExprIdxVec, DEPTH_PRIO_STEP};
 
     pub type FlatNodeVec<T> = SmallVec<[FlatNode<T>; N_NODES_ON_STACK]>;
     pub type FlatOpVec<T> = SmallVec<[FlatOp<T>; N_NODES_ON_STACK]>;
@@ -467,6 +481,9 @@ mod detail {
         let mut idx_tkn: usize = 0;
         let mut depth = 0;
         let mut unary_stack: UnaryOpIdxDepthStack = SmallVec::new();
+        let depth_prio_step = depth_prio_step(&OF::make(), DEPTH_PRIO_STEP);
+        // nesting level of each binary operator
+        let mut op_depths = SmallVec::<[i64; N_NODES_ON_STACK]>::new();
 
         let iter_subsequent_unaries = |end_idx: usize| {
             let unpack = |token_idx| unpack_unary(token_idx, parsed_tokens);
@@ -507,7 +524,8 @@ mod detail {
                 ParsedToken::Op((op_idx, op)) => {
                     if is_binary(op, idx_tkn, parsed_tokens)? {
                         let mut bin_op = op.bin()?;
-                        bin_op.prio += depth * DEPTH_PRIO_STEP;
+                        bin_op.prio += depth * depth_prio_step;
+                        op_depths.push(depth);
                         flat_ops.push(FlatOp::<T> {
                             unary_op: UnaryOp::new(),
                             bin_op: BinOpWithIdx {
@@ -547,10 +565,12 @@ mod detail {
                             depth += 1;
                         }
                         Paren::Close => {
+                            let n_ops_in_parens =
+                                op_depths.iter().rev().take_while(|d| **d >= depth).count();
                             let lowest_prio_flat_op = flat_ops
                                 .iter_mut()
                                 .rev()
-                                .take_while(|op| op.bin_op.op.prio >= depth * DEPTH_PRIO_STEP)
+                                .take(n_ops_in_parens)
                                 .min_by(|fo1, fo2| fo1.bin_op.op.prio.cmp(&fo2.bin_op.op.prio));
                             match lowest_prio_flat_op {
                                 None => {
@@ -994,6 +1014,21 @@ where
     LM: MatchLiteral,
     <T as FromStr>::Err: Debug,
 {
+    let depth_prio_step = depth_prio_step(&OF::make(), DEPTH_PRIO_STEP_FLATTEN);
+    flatten_vecs_with_step(deep_expr, prio_offset, depth_prio_step)
+}
+
+fn flatten_vecs_with_step<T, OF, LM>(
+    deep_expr: &DeepEx<T, OF, LM>,
+    prio_offset: i64,
+    depth_prio_step: i64,
+) -> (FlatNodeVec<T>, FlatOpVec<T>)
+where
+    T: DataType,
+    OF: MakeOperators<T>,
+    LM: MatchLiteral,
+    <T as FromStr>::Err: Debug,
+{
     use self::detail::FlatOp;
 
     let mut flat_nodes = FlatNodeVec::<T>::new();
@@ -1010,7 +1045,8 @@ where
                 flat_nodes.push(flat_node);
             }
             DeepNode::Expr(e) => {
-                let (mut sub_nodes, mut sub_ops) = flatten_vecs(e, prio_offset + 100i64);
+                let (mut sub_nodes, mut sub_ops) =
+                    flatten_vecs_with_step(e, prio_offset + depth_prio_step, depth_prio_step);
                 flat_nodes.append(&mut sub_nodes);
                 flat_ops.append(&mut sub_ops);
             }
